@@ -19,6 +19,16 @@ var engines = []engine{
 		StubTest: []string{"internal/bgp/native"},
 	},
 	{
+		Name: "gconc", TestPkg: "controller", TestName: "TestVerifGconc", SimPkgs: kctlPkgs, Rules: "r1,r2,r3", Race: true,
+		Harness:  []string{"controller", "internal/allocator", "internal/k8s/controllers"},
+		StubTest: []string{"controller"},
+	},
+	{
+		Name: "gconcspk", TestPkg: "speaker", TestName: "TestVerifGconcSpk", SimPkgs: kspkPkgs, Rules: "r1,r2,r3,r4", Subst: "harness/speaker_subst.json", Race: true,
+		Harness:  []string{"speaker", "internal/layer2", "internal/k8s/controllers"},
+		StubTest: []string{"speaker"},
+	},
+	{
 		Name: "gl2", TestPkg: "internal/layer2", TestName: "TestVerifGl2", SimPkgs: []string{"internal/layer2"}, Rules: "r1,r2,r3,r4,r5", Subst: "harness/layer2_subst.json",
 		Harness:  []string{"internal/layer2"},
 		StubTest: []string{"internal/layer2"},
@@ -171,7 +181,25 @@ var gl2Assume = []string{
 
 const gl2Rule = "Each run draws 1-2 updater tasks (2-9 announce / re-announce with changed interface scope / withdraw operations over 4 services sharing 3 addresses, IPv4 and IPv6), a LAN task injecting 3-16 frames (requests to broadcast / this MAC / a foreign MAC, replies, read errors) on 2 interfaces, the gratuitous loop on the fake clock, and write errors; the scheduler draws every interleaving."
 
+var gconcComponents = map[string]string{
+	"k8s.Listener (ServiceHandler, PoolHandler, ConfigHandler, NodeHandler) and its mutex":       "real, the mutex is scheduler-owned (simsync) and reports RaceAcquire/RaceRelease",
+	"controller.SetBalancer/SetPools, allocator incl. countersMutex, CountersForPool":            "real, built with -race",
+	"speaker controller, bgpController (activeAdsMutex, PeersForService), layer2.Announce (GetStatus)": "real, built with -race",
+	"controller-runtime workers": "harness tasks: one per reconciler plus status-query tasks, released one at a time by the seeded scheduler",
+	"race detector":              "the Go race detector; the simulator's own hand-offs are hidden from it (runtime.RaceDisable, //go:norace), so only the program's own synchronisation orders accesses",
+}
+
+var gconcAssume = []string{
+	"interleaving granularity = park points (lock acquisitions, yields between events); the race detector covers what happens between them",
+	"a reported data race is deterministic for a given choice sequence because the execution order is; the report text is saved next to the replay file",
+}
+
+const gconcRule = "Each run draws scripts for the worker tasks (service events incl. full re-syncs and deletions, pool reconfigurations incl. rename/regroup/removal, status queries) and the scheduler draws their interleaving at every lock acquisition; the run is compared with the serial replay of the same handler invocations in Listener-lock order."
+
 func init() {
+	props = append(props, propDef{ID: "C20", Level: "exploration", Rule: gconcRule, Assumptions: gconcAssume, Components: gconcComponents,
+		Batches: []batch{{Engine: "gconc", Variant: "", Runs: 4000, RunsT: 60000, WallS: 120, WallST: 900, Note: "controller process"},
+			{Engine: "gconcspk", Variant: "", Runs: 4000, RunsT: 60000, WallS: 120, WallST: 900, Note: "speaker process"}}})
 	props = append(props, propDef{ID: "C13", Level: "exploration", Rule: gl2Rule, Assumptions: gl2Assume, Components: gl2Components,
 		Batches: []batch{{Engine: "gl2", Variant: "", Runs: 6000, RunsT: 100000, WallS: 170, WallST: 1500}}})
 	props = append(props, propDef{ID: "C19", Level: "exploration", Rule: gfrrRule + " " + gfrrk8sRule, Assumptions: gfrrAssume, Components: merge(gfrrComponents, gfrrk8sComponents),
@@ -202,4 +230,6 @@ var selftestVariants = map[string][]string{
 	"gfrr": {""},
 	"gfrrk8s": {""},
 	"gl2": {""},
+	"gconc": {""},
+	"gconcspk": {""},
 }
